@@ -2524,4 +2524,12 @@ def unwrap_formatted(v):
         if isinstance(v, ast.Call) and isinstance(v.func, ast.Name) and v.func.id in ('str', 'float', 'int') and len(v.args) == 1:
             v = v.args[0]
             continue
+        if isinstance(v, ast.BinOp) and isinstance(v.op, ast.Add):
+            # a column followed / preceded by a literal separator
+            if isinstance(v.right, ast.Constant) and isinstance(v.right.value, str):
+                v = v.left
+                continue
+            if isinstance(v.left, ast.Constant) and isinstance(v.left.value, str):
+                v = v.right
+                continue
         return v
